@@ -20,3 +20,4 @@ mod c20_paths;
 
 #[cfg(kani)]
 mod c14_from_env;
+
